@@ -201,6 +201,8 @@ def canon_model(delta: list, ended_all: bool) -> tuple[list, bool]:
     """drop what the harness cannot see: broker topics after PubSub.close()"""
     out = []
     for d in delta:
+        if d[0] == 0:
+            continue        # the call itself: the harness issued it
         if d[0] == 2 and d[1] == 5:
             ended_all = True
             out.append(d)
